@@ -31,13 +31,19 @@ RULE = ("random edit histories over a pool of real units (plain Unit, TwoRollPas
         "handed over in one of several forms: list, tuple, Sequence ABC instance, __iter__-only and __getitem__-only "
         "objects (re-iterable), generator, iter(), map, reversed, itertools.chain (one-shot) and - for re-insertions - a "
         "generator that reads the edited list lazily; after every op the content of the edited list is compared with "
-        "what the same op does to a plain python list.")
+        "what the same op does to a plain python list. Second stream (implementation and oracle only): histories over "
+        "units that are really solved (oval / round / three-roll passes, transports, cooling pipe, rotator, nested "
+        "sequences) with steps solve / other disk_element_count (more, fewer, 0, unset) / solve again / deep copy / "
+        "flatten / list edits of sequences and of disk element lists; after every step the oracle walks the sub-unit "
+        "list of every unit ever seen, incl. the disk elements of earlier solves.")
 TRUSTED_EXTRA = ["AST pattern matcher for the list / sequence methods (driver/translate/c13_listops.py) and the meaning given to "
                  "its instructions (lean/PyrollModel/TreeProg.lean: python list primitives as modelled); its output is consumed "
                  "by the `*_program_refines*` theorems and the model they tie it to is run against the real objects (K)"]
 ASSUMPTIONS = [
     "CPython list primitive methods, weakref and copy.deepcopy memo semantics are modelled, not verified",
     "the iterator protocol is modelled by Tree.Src (one-shot iterables yield their items during the first iteration only)",
+    "disk element creation while solving (DiskElementUnit.init_solve) is outside the Lean model and the translator: it is "
+    "covered by the property oracle on sampled solve histories (iteration limit 6 during a solve op)",
     "the model is tied to the code by sampled differential runs (state compared after every op) and, statement by "
     "statement, by the programs translated from the source (refinement theorems); `copy.deepcopy` (memo protocol) and the "
     "weak parent slot are pinned, not run",
@@ -55,6 +61,12 @@ LIVE = "live"           # one-shot AND lazy: reads the edited list itself, posit
 FORMS = REITERABLE + ONE_SHOT + (LIVE,)
 SEQUENCE_FORMS = ("list", "tuple", "seqabc")            # what `PassSequence(units: Sequence[Unit])` is promised
 FORM_P = 0.5          # share of iterable arguments that are not handed over as a plain list
+LIB_OPS = ("mk", "solve", "setcount")     # ops of the second stream: sub-unit lists the library (re)builds itself
+DESIGNS = ("oval pass", "round pass", "transport by duration", "transport by length", "rotator", "three-roll pass",
+           "cooling pipe")
+DISKED = (0, 1, 2, 3, 5, 6)                # designs that can be subdivided in disk elements
+SOLVE_ROUNDS = 6                           # iteration limit while a `solve` op runs
+OK_STATUS = ("ok", "IndexError", "ValueError", "solve-failed")
 ARG_AT = {"seq": 2, "extend": 2, "iadd": 2, "setslice": 4, "setsliceext": 5}    # position of the unit ids in the op tuple
 
 
@@ -208,6 +220,66 @@ class Real:
         self.units = []
         self.ids = {}
         self.content = None
+        self.solved = False         # a `solve` op has run in this history
+
+    def in_profile(self):
+        """the workpiece every `solve` op starts from (a fresh object per solve)"""
+        from pyroll.core import Profile
+        return Profile.round(diameter=30e-3, temperature=1200 + 273.15, strain=0, material=["C45", "steel"],
+                             flow_stress=100e6, length=1)
+
+    def make_design(self, design, count, lab):
+        """a unit that can really be solved (`mk` op): roll passes, transports and a rotator with realistic data;
+        `count` = requested subdivision in disk elements (None: not given, the library's default applies)"""
+        from pyroll.core import (RollPass, ThreeRollPass, Transport, CoolingPipe, Rotator, Roll, RoundGroove,
+                                 CircularOvalGroove)
+        kw = {} if count is None else {"disk_element_count": count}
+        d = design % len(DESIGNS)
+        if d == 0:
+            return RollPass(label=f"L{lab}", gap=2e-3, roll=Roll(
+                groove=CircularOvalGroove(depth=8e-3, r1=6e-3, r2=40e-3), nominal_radius=160e-3,
+                rotational_frequency=1), **kw)
+        if d == 1:
+            return RollPass(label=f"L{lab}", gap=2e-3, roll=Roll(
+                groove=RoundGroove(r1=1e-3, r2=12.5e-3, depth=11.5e-3), nominal_radius=160e-3,
+                rotational_frequency=1), **kw)
+        if d == 2:
+            return Transport(label=f"L{lab}", duration=1, **kw)
+        if d == 3:
+            return Transport(label=f"L{lab}", length=2, **kw)
+        if d == 4:
+            return Rotator(label=f"L{lab}", rotation=90)
+        if d == 5:
+            return ThreeRollPass(label=f"L{lab}", gap=2e-3, roll=Roll(
+                groove=CircularOvalGroove(depth=8e-3, r1=6e-3, r2=40e-3, pad_angle=30), nominal_radius=160e-3,
+                rotational_frequency=1), **kw)
+        return CoolingPipe(label=f"L{lab}", length=2, inner_radius=30e-3, coolant_volume_flux=0.01,
+                           coolant_temperature=300, **kw)
+
+    def harvest(self):
+        """register, in a fixed order, every unit that is listed in a unit seen before and has not been seen yet:
+        sub-units the LIBRARY created on its own (disk elements made while a unit is solved, copies made by a deep
+        copy).  Everything seen once stays registered (strong reference), so the oracle keeps walking the units of
+        earlier solves.  In a history of plain list edits there is nothing to find."""
+        i = 0
+        while i < len(self.units):
+            for c in list(self.units[i]._subunits):
+                if id(c) not in self.ids:
+                    self.reg(c)
+            i += 1
+
+    def subtree(self, u):
+        """u and everything listed below it (each object once)"""
+        out, seen = [], set()
+        stack = [u]
+        while stack:
+            x = stack.pop()
+            if id(x) in seen:
+                continue
+            seen.add(id(x))
+            out.append(x)
+            stack.extend(reversed(list(x._subunits)))
+        return out
 
     def reg(self, u):
         self.ids[id(u)] = len(self.units)
@@ -244,7 +316,7 @@ class Real:
         None for ops that edit no existing list."""
         Unit, PassSequence, TwoRollPass, Transport = self.cls
         n, U = op[0], self.units
-        if n in ("unit", "seq", "deepcopy"):
+        if n in ("unit", "seq", "deepcopy") + LIB_OPS:
             return None
         s = U[op[1]]
         before = list(s._subunits)
@@ -304,7 +376,18 @@ class Real:
         contains what the same edit gives on a plain list'"""
         self.content = None
         want = self.plain_list_result(op)
+        # solving a unit or asking for another subdivision is no edit of any SEQUENCE's list of units
+        held = ([(s, list(s._subunits)) for s in self.units if self.kind_of(s) == 3]
+                if op[0] in ("solve", "setcount") else [])
         st = self._apply(op)
+        self.harvest()
+        for s, before in held:
+            got = list(s._subunits)
+            if [id(x) for x in got] != [id(x) for x in before] and not self.content:
+                def L_(xs):
+                    return "[" + ", ".join(f"u{self.uid(x)}" for x in xs) + "]"
+                self.content = (f"content: after {op[0]} seq u{self.uid(s)} lists {L_(got)}, before it listed "
+                                f"{L_(before)} ({op[0]} is no edit of a sequence)")
         if op[0] == "seq" and st.startswith("u"):
             want = (self.units[int(st[1:])], [self.units[i] for i in op[2]])
         if want is not None:
@@ -339,6 +422,32 @@ class Real:
             if name == "seq":
                 s = PassSequence(self.arg(op), label=f"L{op[1]}")
                 return f"u{self.reg(s)}"
+            if name == "mk":
+                return f"u{self.reg(self.make_design(op[1], op[2], len(self.units)))}"
+            if name == "solve":
+                # the public entry point; it may fail for physical reasons (a profile that does not fit the next
+                # groove, a disk element solved on its own ...) - the tree has to be consistent either way
+                # Nested iteration loops that do not converge (sequence x unit x disk element, 100 rounds each by
+                # default) would take minutes: the loops are cut short for the time of the call (the setting is put
+                # back); the tree must be consistent whether or not the numbers have settled.
+                from pyroll.core import Config
+                self.solved = True
+                old = Config.DEFAULT_MAX_ITERATION_COUNT
+                Config.DEFAULT_MAX_ITERATION_COUNT = SOLVE_ROUNDS
+                try:
+                    self.units[op[1]].solve(self.in_profile())
+                except Exception:
+                    return "solve-failed"
+                finally:
+                    Config.DEFAULT_MAX_ITERATION_COUNT = old
+                return "ok"
+            if name == "setcount":
+                u = self.units[op[1]]
+                if op[2] is None:
+                    u.__dict__.pop("disk_element_count", None)      # back to the library's default
+                else:
+                    u.disk_element_count = op[2]
+                return "ok"
             if name == "append":
                 self.units[op[1]].append(self.units[op[2]])
             elif name == "prepend":
@@ -382,6 +491,11 @@ class Real:
                     return "copy-wrong"
             elif name == "deepcopy":
                 c = copy.deepcopy(self.units[op[1]])
+                if self.solved:
+                    # copying a unit that is not the root of its tree also copies (and drops) its owners; solved units
+                    # may sit in reference cycles (profiles, caches): make sure the dropped copies are gone before the oracle looks
+                    import gc
+                    gc.collect()
                 return f"u{self.reg_tree(c)}"
             else:
                 return "bad-op"
@@ -459,15 +573,18 @@ class Real:
         probs = []
         listed_in = {}
         for s in self.units:
-            if self.kind_of(s) != 3:
+            # every unit owns a list of sub-units (a sequence its units, a roll pass / transport the disk elements the
+            # library creates while solving): listed <=> names the owner, navigation agrees with the list order
+            is_seq = self.kind_of(s) == 3
+            if not is_seq and not s._subunits:
                 continue
             sid = self.uid(s)
             lst = list(s._subunits)
-            if not isinstance(s._subunits, Unit._SubUnitsList):
+            if is_seq and not isinstance(s._subunits, Unit._SubUnitsList):
                 probs.append(f"seq u{sid}: unit list is a {type(s._subunits).__name__}")
             for k, u in enumerate(lst):
                 if u.parent is not s:
-                    probs.append(f"listed unit u{self.uid(u)} of seq u{sid} names parent "
+                    probs.append(f"listed unit u{self.uid(u)} of {'seq' if is_seq else 'unit'} u{sid} names parent "
                                  f"{'None' if u.parent is None else 'u%d' % self.uid(u.parent)}")
                 listed_in.setdefault(id(u), []).append(sid)
                 # navigation agrees with the list order (only meaningful when listed once)
@@ -492,22 +609,26 @@ class Real:
                         probs.append(f"next of u{self.uid(u)} raises {type(e).__name__}")
             # access by index / slice / label, sub-lists by type
             try:
-                if s.units != lst or list(s) != lst or len(s) != len(lst):
+                if not is_seq:
+                    pass
+                elif s.units != lst or list(s) != lst or len(s) != len(lst):
                     probs.append(f"seq u{sid}: units/iter/len disagree with the list")
-                for k, u in enumerate(lst):
+                for k, u in enumerate(lst if is_seq else []):
                     if s[k] is not u or s[k - len(lst)] is not u:
                         probs.append(f"seq u{sid}[{k}] is not the {k}-th listed unit")
                     first = next(x for x in lst if x.label == u.label)
                     if s[u.label] is not first:
                         probs.append(f"seq u{sid}['{u.label}'] is not the first match")
                 n_ = len(lst)
-                for sl in (slice(1, None), slice(None, -1), slice(-2, None), slice(1, n_ - 1), slice(None, None, 2),
+                for sl in () if not is_seq else (slice(1, None), slice(None, -1), slice(-2, None), slice(1, n_ - 1), slice(None, None, 2),
                            slice(None, None, -1), slice(n_ + 2, None), slice(-n_ - 3, 2)):
                     if s[sl] != lst[sl]:
                         probs.append(f"seq u{sid}[{sl.start}:{sl.stop}:{sl.step}] disagrees with the list")
-                if [id(x) for x in s.roll_passes] != [id(x) for x in lst if isinstance(x, TwoRollPass)]:
+                if not is_seq:
+                    pass
+                elif [id(x) for x in s.roll_passes] != [id(x) for x in lst if isinstance(x, TwoRollPass)]:
                     probs.append(f"seq u{sid}.roll_passes is not the order-preserving sub-list")
-                if [id(x) for x in s.transports] != [id(x) for x in lst if isinstance(x, Transport)]:
+                if is_seq and [id(x) for x in s.transports] != [id(x) for x in lst if isinstance(x, Transport)]:
                     probs.append(f"seq u{sid}.transports is not the order-preserving sub-list")
             except Exception as e:
                 probs.append(f"seq u{sid}: lookup raised {type(e).__name__}: {e}")
@@ -523,7 +644,8 @@ class Real:
                             got = nav_of(u, d, t)
                             if got is not want and not (isinstance(want, str) and got == want):
                                 probs.append(f"{d}: u{self.uid(u)}.{d}({t.__name__}) gives {self.name(got)}, "
-                                             f"the list order of seq u{sid} says {self.name(want)}")
+                                             f"the list order of {'seq' if is_seq else 'unit'} u{sid} says "
+                                             f"{self.name(want)}")
         for u in self.units:
             p = u.parent
             if navof and p is None and not probs:
@@ -564,6 +686,12 @@ def _to_line(op):
         return f"unit {op[1]} {op[2]}"
     if n == "seq":
         return f"seq {op[1]} {L(op[2])}"
+    if n == "mk":
+        return f"mk {op[1]} {O(op[2])}"
+    if n == "solve":
+        return f"solve {op[1]}"
+    if n == "setcount":
+        return f"setcount {op[1]} {O(op[2])}"
     if n in ("append", "prepend", "remove"):
         return f"{n} {op[1]} {op[2]}"
     if n in ("insert", "setitem"):
@@ -836,7 +964,7 @@ def op_nonfresh(real, op):
         if u >= len(real.units):
             continue
         obj = real.units[u]
-        occ = [real.uid(q) for q in real.units if real.kind_of(q) == 3 for x in q._subunits if x is obj]
+        occ = [real.uid(q) for q in real.units for x in q._subunits if x is obj]
         if not occ:
             if obj.parent is not None:
                 return True                         # stale parent (only downstream of an earlier problem)
@@ -869,6 +997,11 @@ def violation_key(small, probs):
         real.apply(op)
     last = small[-1]
     form = form_class(form_of(last))        # after shrinking: '' unless the problem needs that form of argument
+    if last[0] == "solve":
+        # what the solve meets: units that already hold disk elements, in another number than is asked for now
+        held = [u for u in real.subtree(real.units[last[1]]) if u._subunits and hasattr(u, "disk_element_count")]
+        form = ("-recount" if any(u.disk_element_count != len(u._subunits) for u in held) else
+                "-again" if held else "")
     if probs and probs[0].split(":")[0] in ("prev_of", "next_of"):
         return "navof-after-" + last[0] + form
     if probs and all(p.startswith("content:") for p in probs):
@@ -876,11 +1009,30 @@ def violation_key(small, probs):
     return "inv-after-" + last[0] + ("-overlap" if op_overlaps(real, last) else "") + form
 
 
+def refs(op):
+    """the unit ids an op names"""
+    n = op[0]
+    if n in ("unit", "mk"):
+        return []
+    if n == "seq":
+        return list(op[2])
+    r = [op[1]]
+    if n in ("append", "prepend", "remove"):
+        r.append(op[2])
+    elif n in ("insert", "setitem"):
+        r.append(op[3])
+    elif n in ARG_AT:
+        r += list(op[ARG_AT[n]])
+    return r
+
+
 def first_problem(ops):
     real = Real()
     for i, op in enumerate(ops):
+        if any(not -1 < u < len(real.units) for u in refs(op)):
+            return None, []         # (a shrinking candidate that names a unit which does not exist there)
         st = real.apply(op)
-        if st not in ("ok", "IndexError", "ValueError") and not st.startswith("u"):
+        if st not in OK_STATUS and not st.startswith("u"):
             return i, [f"operation {op[0]} raised/returned {st}"]
         p = real.oracle()
         if p:
@@ -895,7 +1047,7 @@ def shrink(ops, upto):
     while changed:
         changed = False
         for i in range(len(ops) - 1, -1, -1):
-            if ops[i][0] in ("unit", "seq", "deepcopy"):
+            if ops[i][0] in ("unit", "seq", "deepcopy", "mk"):
                 continue
             cand = ops[:i] + ops[i + 1:]
             idx, probs = first_problem(cand)
@@ -963,6 +1115,212 @@ CORPUS = [
     # F10: l[0], l[1] = l[1], l[0] - the first item assignment lists u1 twice, the second one orphans it
     [("unit", 0, 0), ("unit", 0, 1), ("seq", 0, [0, 1]), ("setitem", 2, 0, 1), ("setitem", 2, 1, 0)],
 ]
+
+
+# ---- second stream: sub-unit lists the library (re)builds itself ---------------------------------
+# The property speaks of every unit, of "any series of edits", and of flatten / copy / deep copy, i.e. also of lists the
+# library replaces or rebuilds on its own after construction.  The largest such family are the disk elements a roll pass
+# or transport creates while it is solved.  Histories of this stream use units that can really be solved; steps: solve
+# (a sequence, a nested one, a single unit), ask for another subdivision (more, fewer, none, back to the default), solve
+# again, deep copy, flatten, list edits of sequences and of disk element lists.  After every step the oracle walks every
+# unit EVER seen (disk elements of earlier solves stay registered).
+LIB_CORPUS = [
+    # solve, other subdivision (down / up / first set), solve again, then edit
+    [("mk", 0, 3), ("mk", 2, 2), ("mk", 1, None), ("seq", 0, [0, 1, 2]), ("solve", 3), ("solve", 3),
+     ("setcount", 0, 1), ("setcount", 1, 4), ("setcount", 2, 2), ("solve", 3), ("drop", 3, 1), ("append", 3, 1),
+     ("solve", 3)],
+    # subdivision taken back (to none, to the default), single units solved on their own, deep copy in between
+    [("mk", 3, 4), ("mk", 0, 2), ("solve", 0), ("solve", 1), ("setcount", 0, 0), ("setcount", 1, None), ("solve", 0),
+     ("solve", 1), ("deepcopy", 1), ("setcount", 1, 3), ("solve", 1)],
+    # nested sequences: flatten and deep copy after a solve, other subdivision in the copy and in the original
+    [("mk", 0, 2), ("mk", 2, 1), ("seq", 1, [0, 1]), ("mk", 4, None), ("mk", 1, 2), ("seq", 0, [2, 3, 4]),
+     ("solve", 5), ("deepcopy", 5), ("flatten", 5), ("setcount", 0, 4), ("solve", 5), ("solve", 5)],
+    # disk element lists edited by hand between two solves (emptied: the next solve creates them anew)
+    [("mk", 2, 3), ("mk", 0, 3), ("seq", 2, [1, 0]), ("solve", 2), ("pop", 0, -1, True), ("clear", 1), ("solve", 2),
+     ("setcount", 0, 5), ("delslice", 0, None, None), ("solve", 2)],
+]
+
+
+def gen_lib_history(rng, n_ops):
+    """one history of the second stream (only insertions of units that are unlisted and name no parent)"""
+    real = Real()
+    ops = []
+
+    def do(op):
+        ops.append(op)
+        real.apply(op)
+        return len(real.units) - 1
+
+    def count():
+        return rng.choice([None, 0, 1, 1, 2, 2, 3, 4, 6])
+
+    def mk(design=None):
+        d = rng.choice([0, 0, 1, 2, 2, 3, 4, 5, 6]) if design is None else design
+        return do(("mk", d, count() if d in DISKED else None))
+
+    def listed(obj):
+        return any(x is obj for q in real.units for x in q._subunits)
+
+    def fresh(s, k):
+        """k units that may be inserted into s: unlisted, no parent, not s or one of its owners; new ones if needed"""
+        anc, cur = set(), real.units[s]
+        while cur is not None and len(anc) < 100:
+            anc.add(id(cur))
+            cur = cur.parent
+        res = []
+        for _ in range(k):
+            pool = [i for i, u in enumerate(real.units) if i not in res and id(u) not in anc and u.parent is None
+                    and not listed(u) and real.kind_of(u) != 3]
+            res.append(rng.choice(pool) if pool and rng.random() < 0.5 else mk())
+        return res
+
+    # a line that can be solved as a whole: oval - transport - round (- transport - ...), sometimes grouped
+    line = []
+    for d in rng.choice([[0, 2, 1], [0, 3, 1, 2], [0, 4, 1], [2, 0, 2, 1, 6], [0], [2], [5, 3], [0, 1]]):
+        line.append(mk(d))
+    if len(line) > 2 and rng.random() < 0.35:
+        k = rng.randrange(1, len(line))
+        inner = do(("seq", rng.randrange(4), line[:k]))
+        do(("seq", rng.randrange(4), [inner] + line[k:]))
+    elif len(line) > 1 or rng.random() < 0.5:
+        do(("seq", rng.randrange(4), line))
+    while len(ops) < n_ops:
+        U = real.units
+        seqs = [i for i, u in enumerate(U) if real.kind_of(u) == 3]
+        disked = [i for i, u in enumerate(U) if hasattr(u, "disk_element_count")]
+        holders = [i for i in disked if U[i]._subunits]
+        r = rng.random()
+        if r < 0.27:
+            # solve: mostly whole lines (units without parent), also single listed units and nested sequences
+            roots = [i for i, u in enumerate(U) if u.parent is None and (real.kind_of(u) == 3 or i in disked)]
+            pool = roots if roots and rng.random() < 0.7 else seqs + disked
+            do(("solve", rng.choice(pool)))
+        elif r < 0.52 and disked:
+            u = rng.choice(holders if holders and rng.random() < 0.6 else disked)
+            n_now = len(U[u]._subunits)
+            c = rng.choice([count(), n_now + 1, max(0, n_now - 1), 0])
+            do(("setcount", u, c))
+        elif r < 0.58:
+            do(("deepcopy", rng.randrange(len(U))))
+        elif r < 0.68 and holders:
+            # disk element lists edited by hand: removals, in-place reversal
+            h = rng.choice(holders)
+            n = len(U[h]._subunits)
+            name = rng.choice(["pop", "delitem", "clear", "delslice", "remove", "setslice", "delsliceext"])
+            if name == "pop":
+                do((name, h, -1, True) if rng.random() < 0.5 else (name, h, rng.randrange(-n, n), False))
+            elif name == "delitem":
+                do((name, h, rng.randrange(-n, n)))
+            elif name == "clear":
+                do((name, h))
+            elif name == "delslice":
+                do((name, h, rng.choice([None, 0, 1]), rng.choice([None, -1, n])))
+            elif name == "remove":
+                do((name, h, real.uid(rng.choice(list(U[h]._subunits)))))
+            elif name == "setslice":
+                do((name, h, None, None, [real.uid(x) for x in reversed(list(U[h]._subunits))]))
+            else:
+                do((name, h, None, None, rng.choice([2, -2, -1, 3])))
+        elif seqs:
+            s = rng.choice(seqs)
+            n = len(U[s]._subunits)
+            ix = (lambda: rng.randrange(-n, n)) if n else (lambda: 0)
+            name = rng.choice(["append", "prepend", "insert", "extend", "iadd", "setitem", "setslice", "drop", "pop",
+                               "delitem", "remove", "delslice", "clear", "flatten", "listcopy", "drop", "pop", "append"])
+            if name in ("append", "prepend"):
+                op = (name, s, fresh(s, 1)[0])
+            elif name == "insert":
+                op = (name, s, rng.randrange(-n - 1, n + 2), fresh(s, 1)[0])
+            elif name in ("extend", "iadd"):
+                op = with_form((name, s, fresh(s, rng.randrange(0, 3))), rng.choice(("list", "list", "gen", "tuple")))
+            elif name == "setitem":
+                op = (name, s, ix(), fresh(s, 1)[0])
+            elif name == "setslice":
+                i, j = rng.choice([(None, None), (0, 1), (1, None), (-1, None), (1, 1)])
+                cur = [real.uid(x) for x in U[s]._subunits[i:j]]
+                op = (name, s, i, j, cur[::-1] if cur and rng.random() < 0.5 else fresh(s, rng.randrange(0, 3)))
+            elif name in ("drop", "delitem"):
+                op = (name, s, ix())
+            elif name == "pop":
+                op = (name, s, -1, True) if rng.random() < 0.5 else (name, s, ix(), False)
+            elif name == "remove":
+                if not n:
+                    continue
+                op = (name, s, real.uid(rng.choice(list(U[s]._subunits))))
+            elif name == "delslice":
+                op = (name, s, rng.choice([None, 0, 1]), rng.choice([None, -1, 1]))
+            else:
+                op = (name, s)
+            do(op)
+        else:
+            mk()
+    return ops
+
+
+def report(ctx, ops, i, probs):
+    """one oracle problem after op #i of a history: classify (known finding F10 or not), shrink, key, replay"""
+    if history_nonfresh(ops, i):
+        key = "adopt-unit-still-listed-elsewhere"
+        small = ops[:i + 1]
+    else:
+        small = shrink(ops, i)
+        j, probs2 = first_problem(small)
+        probs = probs2 or probs
+        key = violation_key(small, probs)
+    ctx.violation(key, probs[0], {"ops": [to_line(o) for o in small], "problems": probs[:5],
+                                  "how": "driver/props/c13.py replay: apply the op lines to real objects "
+                                         "(Real.apply) and run Real.oracle()"})
+
+
+def run_lib(ctx):
+    """second stream (implementation only: solving is outside the Lean model, which knows list edits)"""
+    import logging
+    n_hist = ctx.budget(120, 400)
+    max_ops = 16 if ctx.tier == "quick" else 28
+    histories = [list(c) for c in LIB_CORPUS]
+    import warnings
+    level = logging.getLogger("pyroll").level
+    logging.getLogger("pyroll").setLevel(logging.ERROR)      # "exceeded the maximum iteration count" warnings
+    caught = warnings.catch_warnings()
+    caught.__enter__()
+    warnings.simplefilter("ignore")                          # numpy RuntimeWarnings inside solves that fail
+    try:
+        for _ in range(n_hist):
+            histories.append(gen_lib_history(ctx.rng, ctx.rng.randrange(6, max_ops)))
+        reported = 0
+        for ops in histories:
+            real = Real()
+            found = None
+            for i, op in enumerate(ops):
+                if op[0] == "solve":
+                    held = [u for u in real.subtree(real.units[op[1]])
+                            if u._subunits and hasattr(u, "disk_element_count")]
+                    ctx.count("solve:" + ("recount" if any(u.disk_element_count != len(u._subunits) for u in held)
+                                          else "again" if held else "first"))
+                st = real.apply(op)
+                ctx.count("op:" + op[0])
+                if op[0] == "solve":
+                    ctx.count("solve-outcome:" + st)
+                if st not in OK_STATUS and not st.startswith("u"):
+                    found = (i, [f"operation {op[0]} raised/returned {st}"])
+                    break
+                probs = real.oracle()
+                if probs:
+                    found = (i, probs)
+                    break
+            ctx.count("stream:lib")
+            canon = [to_line(o) for o in ops]
+            ctx.case(canon, any(o[0] == "solve" for o in ops))
+            if found:
+                report(ctx, ops, *found)
+                reported += 1
+                if reported >= 3:
+                    break       # shrinking re-solves the history many times; three concrete replays are enough
+            elif len(ctx.samples) < 5 and len(ops) > 8:
+                ctx.sample({"history": canon, "units_seen": len(real.units)}, limit=5)
+    finally:
+        caught.__exit__(None, None, None)
+        logging.getLogger("pyroll").setLevel(level)
 
 
 def translate(ctx):
@@ -1035,19 +1393,8 @@ def run(ctx):
         if len(ctx.samples) < 3 and nontriv and fresh_only is not None:
             ctx.sample({"history": canon, "final_state": obs[-1][1]})
         if "violation" in meta:
-            i, probs = meta["violation"]
-            nf = history_nonfresh(ops, i)
-            if nf:
-                key = "adopt-unit-still-listed-elsewhere"
-                small = ops[:i + 1]
-            else:
-                small = shrink(ops, i)
-                j, probs2 = first_problem(small)
-                probs = probs2 or probs
-                key = violation_key(small, probs)
-            ctx.violation(key, probs[0], {"ops": [to_line(o) for o in small], "problems": probs[:5],
-                                          "how": "driver/props/c13.py replay: apply the op lines to real objects "
-                                                 "(Real.apply) and run Real.oracle()"})
+            report(ctx, ops, *meta["violation"])
+    run_lib(ctx)
     # ---- model side ------------------------------------------------------------------------
     if getattr(ctx, "model_available", True):
         out = ctx.lean_model(MODEL, lean_lines)
@@ -1101,6 +1448,10 @@ def parse_line(line):
         return ("unit", int(t[1]), int(t[2]))
     if n == "seq":
         return ("seq", int(t[1]), L(t[2]))
+    if n == "mk":
+        return ("mk", int(t[1]), O(t[2]))
+    if n == "setcount":
+        return ("setcount", int(t[1]), O(t[2]))
     if n in ("append", "prepend", "remove"):
         return (n, int(t[1]), int(t[2]))
     if n in ("insert", "setitem"):
